@@ -121,6 +121,14 @@ func parseSCPSSH(raw string, kind Kind) (*URL, error) {
 		return nil, errors.New("no hostname present")
 	}
 
+	// Reject usernames and hostnames that could be mistaken for command line
+	// options by ssh and scp.
+	if err := ensureNotOptionLike(username, "username"); err != nil {
+		return nil, err
+	} else if err = ensureNotOptionLike(hostname, "hostname"); err != nil {
+		return nil, err
+	}
+
 	// Parse off the port. This is not a standard SCP URL syntax (and even Git
 	// makes you use full SSH URLs if you want to specify a port), so we invent
 	// our own rules here, but essentially we just scan until the next colon,
